@@ -5,7 +5,23 @@ from .common import NONE
 
 TIER = os.environ.get("VERIF_TIER", "quick")
 
-RVIAS = ["rows", "flat", "shape", "rowview", "colview", "stepview", "revview", "listview", "ufunc", "assigned", "nprows", "pylists"]
+RVIAS = ["rows", "flat", "shape", "rowview", "colview", "stepview", "revview", "listview", "ufunc", "assigned", "nprows", "pylists", "unsafe"]
+
+
+def safe_opts(opts):
+    """for comparisons BETWEEN two runs (C19): safe_mode=False arrays answer out-of-range indices with whatever memory holds"""
+    o = dict(opts or {})
+    for k in ("via", "via2", "via0"):
+        if o.get(k) == "unsafe":
+            o[k] = "flat"
+    if o.get("vias"):
+        o["vias"] = ["flat" if v == "unsafe" else v for v in o["vias"]]
+    return o
+
+
+def unclaimed_refusal(opts, verdict):
+    """arrays built with safe_mode=False promise no refusals: a case that level A refuses has no claimed outcome there"""
+    return verdict == "not-refused" and bool(opts) and "unsafe" in (opts.get("via"), opts.get("via2"), opts.get("via0")) + tuple(opts.get("vias") or ())
 SPELLINGS = ["plain", "tuple", "empty", "numpy", "numpy32", "pylist"]
 PRES = [None, ["sum"], ["repr"], ["unique"], ["max"], ["rowmean"], ["size", "sum"], ["any", "pad"], ["colsum"], ["sum", "unique"]]
 
@@ -127,9 +143,12 @@ def nontrivial(prop, case):
     return True
 
 
+HVIAS = [v for v in RVIAS if v != "unsafe"]          # programs contain refused steps: safe_mode=False arrays are for one-shot cases only
+
+
 def heap_variants(prop, case):
     h = _h(case)
-    return [{"via0": "flat", "spelling": "plain"}, {"via0": RVIAS[h % len(RVIAS)], "spelling": SPELLINGS[(h // 16) % len(SPELLINGS)]}]
+    return [{"via0": "flat", "spelling": "plain"}, {"via0": HVIAS[h % len(HVIAS)], "spelling": SPELLINGS[(h // 16) % len(SPELLINGS)]}]
 
 
 def hash_variants(prop, case):
